@@ -27,7 +27,7 @@ def _one(job):
 def run_engine(ctx, tag, modes, n_quick, n_thorough, classes, hashseeds=("0",), shards=4):
     """returns (coverage, violations)"""
     thorough = ctx["tier"] == "thorough"
-    n = n_thorough if thorough else n_quick
+    n = n_thorough if thorough else n_quick * ctx.get("boost", 1)
     jobs = []
     corpus = os.path.join(C.VERIF, "corpus", "engine.json")
     if os.path.exists(corpus):
